@@ -39,10 +39,9 @@ impl FeatureIter {
             #[doc=#doc_inner]
             #[inline]
             #vis fn #ident_iter_fn() -> #ident_iter_struct {
-                use ::core::option::Option::Some;
                 #ident_iter_struct {
-                    fwd: Some(Self::#ident_min),
-                    bwd: Some(Self::#ident_max),
+                    fwd: ::core::option::Option::Some(Self::#ident_min),
+                    bwd: ::core::option::Option::Some(Self::#ident_max),
                     len: #num_values,
                 }
             }
